@@ -697,7 +697,8 @@ class State:
         if op in ("GLOBAL", "INST"):
             return [g for g in p.globs if self._name_ok(*g)]
         if op == "PERSID":
-            return ["pid"]
+            # the id is the text of the line, whatever it looks like
+            return ["pid", "123", "0042", "-5", " 8 ", "1_0", "True", "None", "1.5", "'q'"]
         if op in ("PUT", "LONG_BINPUT"):
             return list(p.memo_keys)
         if op == "BINPUT":
